@@ -7,7 +7,7 @@
 EXTENDS JetProg
 CONSTANTS Depth, Kinds
 
-Focals == {"ok", "fail", "failvar", "panic"}
+Focals == {"ok", "fail", "failvar", "panic", "inclbroken"}
 TryKinds == {"none", "try"}
 ProbeKinds == {"top", "block", "include"}
 
@@ -16,6 +16,8 @@ Focal(f) ==
     [] f = "fail"    -> <<T("f0"), P("ff", FailE), T("f1")>>
     [] f = "failvar" -> <<T("f0"), P("ff", Var("g")), T("f1")>>
     \* a user function panics with a non-error value: outside try the panic escapes Execute; the Runtime is clean all the same
+    \* a template that exists but does not parse: the same error every time, not a cached half-built template
+    [] f = "inclbroken" -> <<T("f0"), Incl("ff", BrokenName), T("f1")>>
     [] f = "panic"   -> <<T("f0"), P("ff", Ex("err", "panic")), T("f1")>>
 
 MkC(par) ==
